@@ -27,7 +27,10 @@ RULE = ("scenario ids: exhaustive product cooperative x configuration (None/0/k)
         "illegal characters, empty after cleaning), numbers 1..10^20 sampled from the seeded PRNG; solution ids: every "
         "constructible (vehicle model, vehicle type, cost function) tuple once + sampled lists of 1..4; malformed "
         "stream: character-level mutations of printed ids, of solution ids and of vehicle ids.  distinct = distinct "
-        "case dicts; non-trivial = valid id (constructor accepts, map name non-empty) or a parse case")
+        "case dicts; non-trivial = valid id (constructor accepts, map name non-empty) or a parse case"
+        " + histories on one ScenarioID object (sidmut): print and hash it, re-assign 1..8 of its public fields to those "
+        "of another valid id, and - when the resulting field combination is that of a valid id - demand that it prints "
+        "like a freshly constructed id with these fields and round-trips (oracle only)")
 ASSUME = ["str(int)/int(str) of CPython are the decimal conversions of Coq's DecimalString/DecimalPos",
           "re.fullmatch implements the language of benchmark_id_pattern (the recogniser of the model is validated "
           "against it on the printed ids and on the malformed stream)",
@@ -230,7 +233,11 @@ def gen(rng, n):
         o = observe_sol(c)
         if o.get("bid"):
             bids.add(o["bid"])
-    return (sids + gen_parse(rng, n, sorted(printed)) + sols + gen_pbid(rng, n // 4, sorted(bids))
+    # histories on one object: print, re-assign every field through the public attributes, print / parse again
+    muts = [{"op": "sidmut", "args": valid_sid_args(rng), "then": valid_sid_args(rng),
+             "fields": sorted(rng.sample(range(len(FIELDS)), rng.choice([1, 1, 1, 2, 3, len(FIELDS)])))}
+            for _ in range(max(80, n // 4))]
+    return (sids + muts + gen_parse(rng, n, sorted(printed)) + sols + gen_pbid(rng, n // 4, sorted(bids))
             + gen_vids(rng, n // 8))
 
 
@@ -346,6 +353,9 @@ def valid_case(c):
     if c["op"] == "sol":
         r = make_sid(c["args"])
         return r[0] == "ok" and r[1].map_name != "" and len(c["sols"]) >= 1
+    if c["op"] == "sidmut":
+        r, r2 = make_sid(c["args"]), make_sid(c["then"])
+        return r[0] == "ok" and r2[0] == "ok" and r[1].map_name != "" and r2[1].map_name != ""
     return False
 
 
@@ -359,6 +369,8 @@ def kind(c):
         return f"sid:{'valid' if valid_case(c) else 'rejected'}:pid={pid_shape(a['pid'])}"
     if c["op"] == "sol":
         return f"sol:n={min(len(c['sols']), 3)}"
+    if c["op"] == "sidmut":
+        return "sid:printed-then-reassigned"
     return c["op"]
 
 
@@ -393,6 +405,31 @@ def oracle(c):
         return None
     if c["op"] == "sid":
         return check_roundtrip(make_sid(c["args"])[1], "sid")
+    if c["op"] == "sidmut":
+        # the id an object denotes is given by its current fields, whatever was printed before
+        sid = make_sid(c["args"])[1]
+        str(sid)
+        hash(sid)
+        fresh = make_sid(c["then"])[1]
+        for i in c.get("fields", range(len(FIELDS))):  # re-assign some fields to those of another valid id
+            v = getattr(fresh, FIELDS[i])
+            setattr(sid, FIELDS[i], list(v) if isinstance(v, list) else v)
+        # in the property's domain only if the resulting field combination is itself that of a valid id
+        now = fields_of(sid)
+        try:
+            same = ScenarioID(cooperative=now["cooperative"], country_id=now["country_id"], map_name=now["map_name"],
+                              map_id=now["map_id"], configuration_id=now["configuration_id"],
+                              obstacle_behavior=now["obstacle_behavior"], prediction_id=now["prediction_id"],
+                              scenario_version=now["scenario_version"])
+        except (AssertionError, ValueError):
+            return None
+        if fields_of(same) != now or any(type(a) is not type(b) for a, b in zip(fields_of(same).values(), now.values())):
+            return None
+        if str(sid) != str(same):
+            return ("sidmut:print:stale", f"id printed as {str(make_sid(c['args'])[1])!r}, then fields "
+                                          f"{[FIELDS[i] for i in c.get('fields', [])]} re-assigned: prints as {str(sid)!r} "
+                                          f"although its fields are those of {str(same)!r}")
+        return check_roundtrip(sid, "sidmut")
     # solution benchmark id
     sid, sol = build_solution(c)
     n = f"n={min(len(c['sols']), 3)}"
@@ -466,6 +503,8 @@ def representable(c):
     """Coq strings are byte strings and the model's ids are ints: keep to ASCII / int cases"""
     def asc(s):
         return s is None or (isinstance(s, str) and all(ord(ch) < 128 for ch in s))
+    if c["op"] == "sidmut":
+        return False  # histories on one object are judged by the oracle only (the model has no mutable ids)
     if c["op"] in ("sid", "sol"):
         a = c["args"]
         return asc(a["country"]) and asc(a["name"]) and asc(a["beh"]) and asc(a["ver"])
